@@ -16,6 +16,7 @@ From CB Require Import Trie.Nibbles.
 From CB Require Import Trie.NibblesProofs.
 From CB Require Import Trie.Arena.
 From CB Require Import Trie.ArenaProofs.
+From CB Require Import Trie.ArenaCow.
 Import ListNotations.
 Local Open Scope N_scope.
 
@@ -282,6 +283,85 @@ Example arena_copy_on_write_example :
   /\ as_arena (fst (as_step (ONormalize 0) s1)) = as_arena s0.
 Proof. vm_compute. repeat split. Qed.
 Print Assumptions arena_copy_on_write_example.
+
+(** ** Copy-on-write at arena level, proved (ArenaCow.v).  [SInv] is the ownership
+    invariant of the arena machine: what lies above the checkpoint of the current
+    generation belongs to it - children vectors tagged with the node's own generation
+    only point above the checkpoint, shared ones are copied by [make_owned] before a walk
+    descends, entries of such nodes and the values of their [Mutable] entries lie above
+    the checkpoint, and so do the handles of the generation.
+    [as_exec] runs a history and checks at every [new_generation] that the generation tag
+    of the root equals the number of the current generation ([tag_ok]; see design notes:
+    this one fact is checked at run time, not derived). *)
+
+(** Every operation other than [new_generation] / [normalize] - insert, lookup (which
+    copies on the way down), read, set, get_mut, delete with its collapses, delete_prefix
+    with its invalidation walk - leaves every node, value and entry below the checkpoint of
+    the current generation, and all older generations, unchanged, and preserves the
+    invariant. *)
+Theorem arena_cow_below_checkpoint : forall o s,
+  SInv s -> gen_op o = false ->
+  Below (as_arena s) (as_arena (fst (as_step o s))) /\ SInv (fst (as_step o s)).
+Proof.
+  exact (fun o s HS Hg => match as_step_cow o s HS Hg with
+                          | conj (conj _ (conj B _)) (conj S' _) => conj B S' end).
+Qed.
+Print Assumptions arena_cow_below_checkpoint.
+
+Theorem arena_new_generation_invariant : forall a,
+  AInv a -> a_gens a <> [] -> tag_ok a = true -> AInv (a_new_generation a).
+Proof. exact new_generation_inv. Qed.
+Print Assumptions arena_new_generation_invariant.
+
+(** Reachable states satisfy the invariant. *)
+Theorem arena_reachable_invariant : forall ops s,
+  as_exec ops as_init = Some s -> SInv s /\ exists saved, Hist s saved.
+Proof. exact reachable_inv. Qed.
+Print Assumptions arena_reachable_invariant.
+
+(** No leak: in every reachable state, after a checkpoint and any operations that do not
+    roll back below it (including nested checkpoints and rollbacks), the node, value,
+    entry and generation vectors of the state at the checkpoint are still a prefix of the
+    current ones. *)
+Theorem arena_no_leak : forall pre ops s c,
+  as_exec pre as_init = Some s ->
+  Forall (keeps (length (a_gens (as_arena s)))) ops ->
+  as_exec (ONewGen :: ops) s = Some c ->
+  firstn (length (a_nodes (as_arena s))) (a_nodes (as_arena c)) = a_nodes (as_arena s)
+  /\ firstn (length (a_values (as_arena s))) (a_values (as_arena c)) = a_values (as_arena s)
+  /\ firstn (length (a_entries (as_arena s))) (a_entries (as_arena c)) = a_entries (as_arena s)
+  /\ firstn (length (a_gens (as_arena s))) (a_gens (as_arena c)) = a_gens (as_arena s).
+Proof.
+  exact (fun pre ops s c Hpre Hk Hex =>
+    match reachable_inv pre s Hpre with
+    | conj HS (ex_intro _ saved HH) => arena_no_leak_hist s saved ops c HH HS Hk Hex
+    end).
+Qed.
+Print Assumptions arena_no_leak.
+
+(** Rollback restores: ... and rolling back to the checkpoint gives back exactly the arena
+    (all four vectors) and the handle tables of the state at the checkpoint. *)
+Theorem arena_rollback_restores : forall pre ops s c,
+  as_exec pre as_init = Some s ->
+  Forall (keeps (length (a_gens (as_arena s)))) ops ->
+  as_exec (ONewGen :: ops ++ [ONormalize (length (a_gens (as_arena s)) - 1)]) s = Some c ->
+  c = s.
+Proof.
+  exact (fun pre ops s c Hpre Hk Hex =>
+    match reachable_inv pre s Hpre with
+    | conj HS (ex_intro _ saved HH) => arena_rollback_hist s saved ops c HH HS Hk Hex
+    end).
+Qed.
+Print Assumptions arena_rollback_restores.
+
+Example arena_rollback_nonvacuous :
+  let pre := [OInsert [18] [1]; OInsert [19] [2]; ONewGen; OInsert [20] []] in
+  let ops := [OInsert [18] [9]; ODelete [19]; ONewGen; ODeletePrefix []; ONormalize 2; OGet [18]] in
+  exists s, as_exec pre as_init = Some s
+    /\ Forall (keeps (length (a_gens (as_arena s)))) ops
+    /\ as_exec (ONewGen :: ops ++ [ONormalize (length (a_gens (as_arena s)) - 1)]) s = Some s.
+Proof. eexists. split; [vm_compute; reflexivity|]. split; [repeat constructor | vm_compute; reflexivity]. Qed.
+Print Assumptions arena_rollback_nonvacuous.
 
 (** ** Non-vacuity: concrete histories exercising the interesting shapes *)
 
